@@ -253,6 +253,22 @@ def c01_doc(doc_repr: str, cfg: int, bits: int) -> bool:
     return decide(doc, cfg)
 
 
+def c01_strict_timestamp_part_list(part: int, link_all: bool) -> bool:
+    """Concrete regression witness (fixed finding c01-timestamp-part-list-folded): every value of a list under a
+    timestamp part modifier is compared with the timestamp PART of the field, as a single value is."""
+    from sigma.backends.test import TextQueryTestBackend
+    from sigma.types import TimestampPart
+
+    names = ["minute", "hour", "day", "week", "month", "year"]
+    fmt = {TimestampPart.MINUTE: "%M", TimestampPart.HOUR: "%H", TimestampPart.DAY: "%d", TimestampPart.WEEK: "%V", TimestampPart.MONTH: "%m", TimestampPart.YEAR: "%Y"}
+    cls = type("TSBackend", (TextQueryTestBackend,), {"field_timestamp_part_expression": 'strftime({field}, "{timestamp_part}")', "timestamp_part_mapping": fmt})
+    key = "ts|" + names[part] + ("|all" if link_all else "")
+    q = cls().convert_rule(SigmaRule.from_dict({"title": "t", "logsource": {"category": "c"}, "detection": {"sel": {key: [2, 3]}, "condition": "sel"}}))[0]
+    single = cls().convert_rule(SigmaRule.from_dict({"title": "t", "logsource": {"category": "c"}, "detection": {"sel": {"ts|" + names[part]: 2}, "condition": "sel"}}))[0]
+    fn = single.split("=")[0]
+    return q == f"{fn}=2 " + ("and" if link_all else "or") + f" {fn}=3"
+
+
 def c01_doc_all(doc_repr: str, cfg: int) -> bool:
     """Concrete-instance form over all assignments of the (few) atoms of a small document."""
     import ast
@@ -351,6 +367,8 @@ OBLIGATIONS = (
 )
 
 SELFCHECKS = [
+    ("c01_strict_timestamp_part_list", {}, (1, False), True),
+    ("c01_strict_timestamp_part_list", {}, (5, True), True),
     ("c01_doc_all", {}, (repr({"title": "t", "logsource": {"category": "c"}, "detection": {"a": {"f": "x"}, "b": {"g": ["y", "z"]}, "condition": "a and not b"}}), 0), True),
     ("c01_doc_all", {}, (repr({"title": "t", "logsource": {"category": "c"}, "detection": {"a": {"f|contains": "x"}, "b": ["k"], "c": {"h": 1}, "condition": "a or b and c"}}), 3), True),
 ]
